@@ -388,6 +388,16 @@ func IndentByParentheses(s string) string {
 				}
 			}
 			prev = comment
+		case c == '"':
+			// a string literal is copied verbatim up to its closing quote
+			appendRune(c, prev, indent)
+			for i++; i < len(A); i++ {
+				sb.WriteRune(A[i])
+				if A[i] == '"' {
+					break
+				}
+			}
+			prev = normal
 		default:
 			appendRune(c, prev, indent)
 			prev = normal
